@@ -35,6 +35,7 @@ type G struct {
 
 	caseOf map[ast.Expr]*ast.SwitchStmt
 	lits   []*ast.FuncLit
+	owner  map[ast.Node]Point
 }
 
 // MayReturn answers false for calls that never return: the builtin panic
@@ -87,8 +88,43 @@ func (g *G) InLit(n ast.Node) bool {
 	return false
 }
 
-// PointOf returns the innermost CFG node whose source range contains n.
+// PointOf returns the innermost CFG node that contains n: by node identity
+// (so that synthetic statements of a flattened view, whose source ranges are
+// meaningless, are found), falling back to source ranges for nodes that are not
+// part of the body's tree.
 func (g *G) PointOf(n ast.Node) Point {
+	if g.owner == nil {
+		g.owner = map[ast.Node]Point{}
+		size := map[ast.Node]int{}
+		for _, b := range g.C.Blocks {
+			if !b.Live {
+				continue
+			}
+			for i, node := range b.Nodes {
+				cnt := 0
+				ast.Inspect(node, func(m ast.Node) bool {
+					if m != nil {
+						cnt++
+					}
+					return true
+				})
+				pt := Point{b, i}
+				ast.Inspect(node, func(m ast.Node) bool {
+					if m == nil {
+						return true
+					}
+					if old, ok := size[m]; !ok || cnt < old {
+						size[m] = cnt
+						g.owner[m] = pt
+					}
+					return true
+				})
+			}
+		}
+	}
+	if pt, ok := g.owner[n]; ok {
+		return pt
+	}
 	var best Point
 	var bestLen token.Pos = -1
 	for _, b := range g.C.Blocks {
